@@ -228,9 +228,17 @@ def run(spec):
             # frame per arriving packet (known finding, C10), so which of the last complete frames is still waiting
             # when the run stops depends on the order of the last retransmissions (numeric NACK order again)
             rest = la[len(lb):] or lb[len(la):]
-            if len(rest) <= 3 and all(kind_of("(0, 0, " + r) == "frame" for r in rest):
-                wa.exempt["last_frames_still_waiting_for_one_more_packet"] += 1
-                diff = None
+            behind = wb if len(lb) < len(la) else wa          # the run that handed over fewer frames
+            if rest and all(kind_of("(0, 0, " + r) == "frame" for r in rest):
+                try:
+                    ks = [int(r.split(", ")[1]) for r in rest]
+                except (ValueError, IndexError):
+                    ks = None
+                # (three or fewer: as before; more: only when every packet of those frames did reach that run's jitter
+                #  buffer, i.e. the frames are complete there and the run simply stopped before they were released)
+                if len(rest) <= 3 or (ks is not None and behind.complete_in_buffer(ks)):
+                    wa.exempt["last_frames_still_waiting_for_one_more_packet"] += 1
+                    diff = None
         if late == "both":
             wa.exempt["both_runs_had_a_packet_100_or_more_late"] += 1
         elif sub:
